@@ -63,6 +63,8 @@ def twin(job, case, m, script, crashes, out, ident, nontriv_fn):
     R = explore.make_run(case, [CrashMon()], model=m, label="restored-twin")
     R.record_full = True
     cs = set(crashes)
+    if -1 in cs:
+        R.crash()  # persisted and restored before the provider's first request
     for i, op in enumerate(script):
         R.play(op)
         if i in cs:
@@ -135,11 +137,19 @@ def crash_twin(job):
     out = dict(evaluations=0, nontrivial=set(), violations=[], samples=[], counters={}, sets={})
     C = out["counters"]
     for seed in range(job["lo"], job["hi"]):
-        if job.get("gen") == "late":
+        if job.get("gen") == "badinit":
+            from ovf.props import c11
+            combos = [(p, k, l) for p in ("input", "vars", "output") for k in c11.KINDS[:4] for l in ("yaql", "jinja")]
+            p_, k_, l_ = combos[seed % len(combos)]
+            t = c11.template(p_, k_, l_, "start")
+            if t is None:
+                continue
+            wf0, inputs, m = t[0], {}, None
+        elif job.get("gen") == "late":
             m, inputs = gen_late(random.Random("%s/%s/late" % (job.get("gseed", 0), seed)))
         else:
             m, inputs = workloads.gen_case(job, seed)
-        wf = m.render()
+        wf = m.render() if m is not None else wf0
         if not workloads.inspect_ok(wf):
             C["definitions_rejected_by_inspection"] = C.get("definitions_rejected_by_inspection", 0) + 1
             continue
@@ -150,7 +160,7 @@ def crash_twin(job):
         C["base_histories"] = C.get("base_histories", 0) + 1
         n = len(script)
         rng = random.Random(h64(job.get("gseed", 0), seed, "c"))
-        sets = [list(range(n))]
+        sets = [list(range(-1, n)), [-1]]
         singles = list(range(n)) if n <= job.get("all_singles_upto", 14) else rng.sample(range(n), job.get("singles", 8))
         sets += [[i] for i in singles]
         for _ in range(job.get("subsets", 3)):
@@ -169,6 +179,8 @@ def jobs(tier, seed):
     # (while other actions are still in flight) and again at the end
     js += batches("crash_twin", scale(tier, 80, 1500), scale(tier, 8, 40), gen="late", gseed=seed + 1, p_fail=0.05, early_render=1.0,
                   all_singles_upto=scale(tier, 14, 30), singles=scale(tier, 6, 16), subsets=scale(tier, 1, 4), name="late-output")
+    # definitions whose input / vars / output fail to render: the conductor is failed by its own initialisation
+    js += batches("crash_twin", 24, 24, gen="badinit", gseed=seed + 2, all_singles_upto=30, subsets=1, name="failing-init")
     return js
 
 
